@@ -1086,6 +1086,12 @@ where
         let new_len = len.checked_add(additional).expect("too many variables");
         let range = len..new_len;
 
+        // Results in the apply cache may depend on the set of variables (e.g.,
+        // ZBDD operations in the Boolean function view), so clear it.
+        let clear_cache = !self.reorder_gc_prepared;
+        if clear_cache {
+            self.data.pre_gc(self);
+        }
         self.data.pre_reorder(self);
         MD::pre_reorder_mut(self);
 
@@ -1100,6 +1106,10 @@ where
 
         self.data.post_reorder(self);
         MD::post_reorder_mut(self);
+        if clear_cache {
+            // SAFETY: `pre_gc()` was called above, no node has been removed
+            unsafe { self.data.post_gc(self) };
+        }
 
         range
     }
@@ -1109,6 +1119,12 @@ where
         &mut self,
         names: impl IntoIterator<Item = S>,
     ) -> Result<Range<VarNo>, DuplicateVarName> {
+        // Results in the apply cache may depend on the set of variables (e.g.,
+        // ZBDD operations in the Boolean function view), so clear it.
+        let clear_cache = !self.reorder_gc_prepared;
+        if clear_cache {
+            self.data.pre_gc(self);
+        }
         self.data.pre_reorder(self);
         MD::pre_reorder_mut(self);
 
@@ -1129,6 +1145,10 @@ where
 
             this.data.post_reorder(this);
             MD::post_reorder_mut(this);
+            if clear_cache {
+                // SAFETY: `pre_gc()` was called above, no node has been removed
+                unsafe { this.data.post_gc(this) };
+            }
         });
 
         let mut names = names.into_iter();
@@ -1152,6 +1172,10 @@ where
             return self.add_named_vars(map.into_names_iter());
         }
 
+        let clear_cache = !self.reorder_gc_prepared;
+        if clear_cache {
+            self.data.pre_gc(self);
+        }
         self.data.pre_reorder(self);
         MD::pre_reorder_mut(self);
 
@@ -1167,6 +1191,10 @@ where
 
         self.data.post_reorder(self);
         MD::post_reorder_mut(self);
+        if clear_cache {
+            // SAFETY: `pre_gc()` was called above, no node has been removed
+            unsafe { self.data.post_gc(self) };
+        }
 
         Ok(0..n)
     }
